@@ -50,6 +50,8 @@ fn spellings() -> Vec<Spelling> {
         "SCORE", "TOTAL", "FNA", "7", "12", "1.5", ".5", "007", "E3", "1E3",
         // the letters no keyword and no other name of this table contains
         "JKQVWYZ",
+        // a name ending in G: a blank and an O after it must not be taken for the start of GO TO
+        "FLAG",
     ];
     let mut v: Vec<Spelling> = plain.iter().map(|s| sp(s)).collect();
     v.push(sp("[\"a B\"]"));
